@@ -78,7 +78,7 @@ def _run(ck, data, fs, par, refs, sel, DFk=1.0, reuse=None):
         if base == "FDD":
             r = sut(setup.mpe, "a", sel_freq=list(sel), DF=par["DFl"] * df)
         else:
-            r = sut(setup.mpe, "a", sel_freq=list(sel), DF1=par["DFl"] * df, DF2=4 * par["DFl"] * df, npmax=par.get("npmax", 20))
+            r = sut(setup.mpe, "a", sel_freq=list(sel), DF1=par["DFl"] * df, DF2=4 * par["DFl"] * df, npmax=par.get("npmax", 20), cm=par.get("cm", 1))
         if raised(r):
             return r
         out["Fn"] = np.asarray(res.Fn, dtype=float).reshape(-1)
@@ -194,6 +194,7 @@ def meta_case(draw, ck):
         c["nxseg"] = draw(st.sampled_from([512, 1024]))
         c["N"] = draw(st.integers(4000, 6000))
         c["npmax"] = draw(st.sampled_from([6, 10, 20]))
+        c["cm"] = draw(st.sampled_from([1, 1, 2]))  # number of closely spaced modes the SDOF bell may combine
     if ms:
         # the FDD pick needs a second singular value: at least two reference channels
         c["nref"] = 2 if ck.split("_")[0] in ("FDD", "EFDD") else draw(st.integers(1, 2))
@@ -235,6 +236,7 @@ def judge_meta(case):
     S, data, refs = _build(case)
     par = {k: case[k] for k in ("nxseg", "method_SD", "pov", "br", "ordmax", "DFl")}
     par["npmax"] = case.get("npmax", 20)
+    par["cm"] = case.get("cm", 1)
     r = len(refs) if refs is not None else (case.get("nref") if ms else S.nch)
     par["ordmax"] = max(2, min(par["ordmax"], par["br"] * r)) if ck.startswith("SSI") else par["ordmax"]
     fs = S.fs
